@@ -209,18 +209,20 @@ func bigBytes(in *Interp, fn *ssa.Function, a []Value) Value {
 	if x.FromBytes != nil {
 		bs := x.FromBytes
 		n := len(bs)
-		// alternative k: exactly k leading zero bytes (k = n: all zero)
-		k := in.decide(n+1, func(k int) *Term {
-			var cs []*Term
-			for i := 0; i < k && i < n; i++ {
-				cs = append(cs, in.boolTerm(in.bvEq(bs[i], BV{W: 8})))
-			}
-			if k < n {
-				cs = append(cs, in.tc.Not(in.boolTerm(in.bvEq(bs[k], BV{W: 8}))))
-			}
-			return in.tc.And(cs...)
-		})
-		return mk(append([]BV{}, bs[k:]...))
+		return &LazySlice{thunk: func() Slice {
+			// alternative k: exactly k leading zero bytes (k = n: all zero)
+			k := in.decide(n+1, func(k int) *Term {
+				var cs []*Term
+				for i := 0; i < k && i < n; i++ {
+					cs = append(cs, in.boolTerm(in.bvEq(bs[i], BV{W: 8})))
+				}
+				if k < n {
+					cs = append(cs, in.tc.Not(in.boolTerm(in.bvEq(bs[k], BV{W: 8}))))
+				}
+				return in.tc.And(cs...)
+			})
+			return mk(append([]BV{}, bs[k:]...)).(Slice)
+		}}
 	}
 	// general case: fork on the byte length up to the configured bound
 	lmax := in.cfg.BytesMax
@@ -229,20 +231,22 @@ func bigBytes(in *Interp, fn *ssa.Function, a []Value) Value {
 	}
 	abs := in.tc.IntAbs(x.T)
 	pow := func(k int) *Term { return in.tc.IntConst(new(big.Int).Lsh(big.NewInt(1), uint(8*k))) }
-	in.noteAssumption(fmt.Sprintf("big.Int.Bytes() of a non-byte-derived value: |x| < 256^%d", lmax))
-	in.assumeFeasible(in.tc.IntCmp("<", abs, pow(lmax)))
-	L := in.decide(lmax+1, func(l int) *Term {
-		if l == 0 {
-			return in.tc.Eq(abs, in.tc.IntConst64(0))
+	return &LazySlice{thunk: func() Slice {
+		in.noteAssumption(fmt.Sprintf("big.Int.Bytes() of a non-byte-derived value: |x| < 256^%d", lmax))
+		in.assumeFeasible(in.tc.IntCmp("<", abs, pow(lmax)))
+		L := in.decide(lmax+1, func(l int) *Term {
+			if l == 0 {
+				return in.tc.Eq(abs, in.tc.IntConst64(0))
+			}
+			return in.tc.And(in.tc.IntCmp(">=", abs, pow(l-1)), in.tc.IntCmp("<", abs, pow(l)))
+		})
+		bs := make([]BV, L)
+		for i := 0; i < L; i++ {
+			d := in.tc.IntMod(in.tc.IntDiv(abs, new(big.Int).Lsh(big.NewInt(1), uint(8*(L-1-i)))), big.NewInt(256))
+			bs[i] = in.mkBV(in.tc.Int2BV(d, 8))
 		}
-		return in.tc.And(in.tc.IntCmp(">=", abs, pow(l-1)), in.tc.IntCmp("<", abs, pow(l)))
-	})
-	bs := make([]BV, L)
-	for i := 0; i < L; i++ {
-		d := in.tc.IntMod(in.tc.IntDiv(abs, new(big.Int).Lsh(big.NewInt(1), uint(8*(L-1-i)))), big.NewInt(256))
-		bs[i] = in.mkBV(in.tc.Int2BV(d, 8))
-	}
-	return mk(bs)
+		return mk(bs).(Slice)
+	}}
 }
 
 func (in *Interp) assumeFeasible(c *Term) {
@@ -409,7 +413,11 @@ func errorsIs(in *Interp, fn *ssa.Function, a []Value) Value {
 		if in.branch(in.equal(err, target)) {
 			return Bool{C: true}
 		}
-		m := in.prog.LookupMethod(err.T, nil, "Unwrap")
+		sel := in.prog.MethodSets.MethodSet(err.T).Lookup(nil, "Unwrap")
+		if sel == nil {
+			return Bool{}
+		}
+		m := in.prog.MethodValue(sel)
 		if m == nil || m.Signature.Results().Len() != 1 {
 			return Bool{}
 		}
